@@ -6,6 +6,6 @@ LEVEL = "model_checking"
 def run(ctx, args):
     q = ctx.quick
     run_focus(ctx, "C01", [("MC_ProxyC01req.cfg", 4 if q else 1, 1), ("MC_ProxyC01resp.cfg", 1, 1)],
-              reach=(), driver_env={"VERIF_HARD": 1, "VERIF_REPS": 2 if q else 4}, extra_drivers=[("TestVfTcpPipeline", {"VERIF_NBURST": 12 if q else 120})],
+              reach=(), driver_env={"VERIF_HARD": 1, "VERIF_REPS": 2 if q else 4}, extra_drivers=[("TestVfTcpPipeline", {"VERIF_NBURST": 12 if q else 120}), ("TestVfConcurrentRelay", {"VERIF_NROUND": 12 if q else 150})],
               rule="requests and responses on every relaying path (backend, Route, static route, response by Via; UDP and TCP next hops) with 0-40 extension headers "
-                   "(compact / odd-case / repeated names, values up to 16 KiB with '%', quotes, ';', ',', UTF-8 and non-UTF-8 bytes), bodies of 0-60 KiB arbitrary bytes, 7 header orders; plus bursts of 5-44 requests pipelined on one real TCP connection to a real TCP listener")
+                   "(compact / odd-case / repeated names, values up to 16 KiB with '%', quotes, ';', ',', UTF-8 and non-UTF-8 bytes), bodies of 0-60 KiB arbitrary bytes, 7 header orders; plus bursts of 5-44 requests pipelined on one real TCP connection to a real TCP listener; plus two listeners of one service relaying at the same time (16 TCP next hops still to be dialled against a stream of 40-79 UDP relays, per round)")
